@@ -59,15 +59,20 @@ def base_modules():
         if k % 3 == 0:
             m.add_func('I', 'I', (), local_get(0) + (call(1) if k == 3 else b'') + i64_const(k) + op(0x7c) + global_get(0) + op(0x7c), export='e%d' % k if k else None)
         elif k % 3 == 1:
-            m.add_func('F', 'F', (), local_get(0) + (call(2) if k == 4 else b'') + f64_const(0x4000000000000000 + (k << 40)) + op(0xa2), export='e%d' % k if k > 1 else None)
+            # e4 also rounds with f64.floor / f64.sqrt / f64.nearest (the runtime calls libm for them) and calls function 8, which is NOT exported
+            # and carries the debug name 'floor': under -g its symbol must not capture the runtime's calls of the C library function
+            m.add_func('F', 'F', (), local_get(0) + (call(2) + op(0x9c) + call(8) + op(0x9f) + op(0x9e) if k == 4 else b'') + f64_const(0x4000000000000000 + (k << 40)) + op(0xa2),
+                       export='e%d' % k if k > 1 and k != 7 else None)
         else:
             m.add_func('iI', 'i', [(2, I64), (1, F32)], local_get(1) + local_set(2) + local_get(0) + local_get(2) + op(0xa7) + op(0x6a) + i32_const(k) + op(0x73), export='e%d' % k)
     # debug names (-g): the non-exported function 1 carries the name under which function 4 is exported ('e3'); the non-exported function 2 and
     # the exported function 5 both have the debug name 'e4', which is also the export name of function 5
-    m.names = {1: 'e3', 2: 'e4', 5: 'e4', 3: 'two', 8: 'seven'}
+    m.names = {1: 'e3', 2: 'e4', 5: 'e4', 3: 'two', 8: 'floor'}
     calls = {}
     for k in range(2, 9):
-        calls['e%d' % k] = [(11,)] if k % 3 == 0 else [(0x4008000000000000,)] if k % 3 == 1 else [(3, 4)]
+        if k == 7:
+            continue
+        calls['e%d' % k] = [(11,)] if k % 3 == 0 else [(0x4008000000000000,), (0x400c000000000000,), (0xc00c000000000000,)] if k % 3 == 1 else [(3, 4)]
     out.append(('B3', m, calls, [('env', 'init', '', 'v')]))
     return out
 
